@@ -1,0 +1,133 @@
+// Verification hooks (cargo feature `verif-hooks`): lets an external harness step a `SwarmDriver`
+// by hand instead of `run()`ning it. Purely additive pass-throughs; nothing here is used by the node.
+
+use super::*;
+use crate::cmd::{LocalSwarmCmd, NetworkSwarmCmd};
+use crate::record_store_api::UnifiedRecordStore;
+use libp2p::kad::{QueryId, RecordKey};
+use std::cell::Cell;
+
+thread_local! {
+    /// (max_records, records_cache_size) applied to the next `build_node` calls on this thread
+    static STORE_OVERRIDES: Cell<Option<(usize, usize)>> = const { Cell::new(None) };
+}
+
+/// Override the record store capacity / cache size used by `NetworkBuilder::build_node` on this thread.
+pub fn set_store_overrides(overrides: Option<(usize, usize)>) {
+    STORE_OVERRIDES.with(|c| c.set(overrides));
+}
+
+pub(crate) fn apply_store_overrides(mut cfg: NodeRecordStoreConfig) -> NodeRecordStoreConfig {
+    if let Some((max_records, cache_size)) = STORE_OVERRIDES.with(|c| c.get()) {
+        cfg.max_records = max_records;
+        cfg.records_cache_size = cache_size;
+    }
+    cfg
+}
+
+impl SwarmDriver {
+    pub fn verif_try_recv_local_cmd(&mut self) -> Option<LocalSwarmCmd> {
+        self.local_cmd_receiver.try_recv().ok()
+    }
+
+    pub fn verif_try_recv_network_cmd(&mut self) -> Option<NetworkSwarmCmd> {
+        self.network_cmd_receiver.try_recv().ok()
+    }
+
+    pub fn verif_handle_local_cmd(
+        &mut self,
+        cmd: LocalSwarmCmd,
+    ) -> std::result::Result<(), NetworkError> {
+        self.handle_local_cmd(cmd)
+    }
+
+    pub fn verif_handle_network_cmd(
+        &mut self,
+        cmd: NetworkSwarmCmd,
+    ) -> std::result::Result<(), NetworkError> {
+        self.handle_network_cmd(cmd)
+    }
+
+    /// (query id, key, number of waiting callers) of every pending get_record
+    pub fn verif_pending_get_record(&self) -> Vec<(QueryId, RecordKey, usize)> {
+        self.pending_get_record
+            .iter()
+            .map(|(id, (key, senders, _, _))| (*id, key.clone(), senders.len()))
+            .collect()
+    }
+
+    pub fn verif_pending_requests_len(&self) -> usize {
+        self.pending_requests.len()
+    }
+
+    pub fn verif_store(&mut self) -> &mut UnifiedRecordStore {
+        self.swarm.behaviour_mut().kademlia.store_mut()
+    }
+
+    pub fn verif_node_store(&mut self) -> Option<&mut crate::record_store::NodeRecordStore> {
+        match self.swarm.behaviour_mut().kademlia.store_mut() {
+            UnifiedRecordStore::Node(store) => Some(store),
+            UnifiedRecordStore::Client(_) => None,
+        }
+    }
+
+    /// (key, type, holder) of every queued replication fetch
+    pub fn verif_fetcher_to_be_fetched(
+        &self,
+    ) -> Vec<(RecordKey, ant_protocol::storage::RecordType, PeerId)> {
+        self.replication_fetcher.verif_to_be_fetched()
+    }
+
+    /// (key, type, holder) of every in-flight replication fetch
+    pub fn verif_fetcher_on_going(
+        &self,
+    ) -> Vec<(RecordKey, ant_protocol::storage::RecordType, PeerId)> {
+        self.replication_fetcher.verif_on_going_fetches()
+    }
+
+    /// Virtual time for the replication fetcher's deadlines.
+    pub fn verif_fetcher_age(&mut self, by: Duration) {
+        self.replication_fetcher.verif_age(by)
+    }
+
+    /// Insert a peer into the routing table (buckets are in manual-insert mode).
+    pub fn verif_add_peer(&mut self, peer: PeerId, addr: Multiaddr) -> bool {
+        matches!(
+            self.swarm.behaviour_mut().kademlia.add_address(&peer, addr),
+            libp2p::kad::RoutingUpdate::Success
+        )
+    }
+
+    pub fn verif_remove_peer(&mut self, peer: &PeerId) {
+        let _ = self.swarm.behaviour_mut().kademlia.remove_peer(peer);
+    }
+
+    /// What the periodic `set_farthest_record_interval` branch of `run` does with a computed distance.
+    pub fn verif_set_distance_range(&mut self, distance: U256) {
+        self.swarm
+            .behaviour_mut()
+            .kademlia
+            .store_mut()
+            .set_distance_range(distance);
+        self.replication_fetcher
+            .set_replication_distance_range(distance);
+    }
+
+    /// Forget the replication throttle (it is kept in real `Instant`s).
+    pub fn verif_reset_replication_throttle(&mut self) {
+        self.last_replication = None;
+        self.replication_targets.clear();
+    }
+
+    pub fn verif_get_replicate_candidates(&mut self, target: &NetworkAddress) -> Vec<PeerId> {
+        self.get_replicate_candidates(target)
+    }
+
+    pub fn verif_closest_k_local_peers(&mut self) -> Vec<PeerId> {
+        self.get_closest_k_value_local_peers()
+    }
+
+    pub fn verif_self_peer_id(&self) -> PeerId {
+        self.self_peer_id
+    }
+}
